@@ -206,10 +206,10 @@ func (b *TrieBucket) Suggest(prefix string, limit int) (rs []string) {
 
 // FindValuesByRegexp returns values by regexp expression.
 func (b *TrieBucket) FindValuesByRegexp(rp *regexp.Regexp, ids []uint32) []uint32 {
-	literalPrefix, _ := rp.LiteralPrefix()
-	literalPrefixByte := strutil.String2ByteSlice(literalPrefix)
+	// the expression may match anywhere in the key: rp.LiteralPrefix() is the start of the MATCH, not of
+	// the key (and is empty for an expression anchored with ^), so it cannot narrow the scan
 	for _, kv := range b.kvs {
-		itr := kv.tree.NewPrefixIterator(literalPrefixByte)
+		itr := kv.tree.NewPrefixIterator(nil)
 		for itr.Valid() {
 			if rp.Match(itr.Key()) {
 				ids = append(ids, itr.Value())
